@@ -118,6 +118,26 @@ func VH_C20_bookkeeping() {
 			}
 		}
 	}
+	// a reference whose run-once job has fired is free again: scheduling under
+	// it registers a new job that fires and delivers its own message
+	for oo := 0; oo < 2; oo++ {
+		for rr := 0; rr < 2; rr++ {
+			if once[oo][rr] && !live[oo][rr] && liveN[oo][rr] != 0 {
+				k := owners[oo].ref.GetPath() + ":" + refs[rr]
+				msg := &vhUserMsg{N: 7000 + 10*oo + rr}
+				vrtAssert(owners[oo].scheduler.Once(b.ref, time.Second, msg, vivid.WithSchedulerReference(refs[rr])) == nil, "once-ok")
+				_, inQuartz := w.quartz.Jobs[k]
+				vrtAssert(inQuartz, "reference-reusable-after-its-once-fired")
+				seenBefore := len(ab.seen)
+				vrtAssert(w.quartz.Fire(k), "reference-reusable-after-its-once-fired")
+				w.run(50, "fire")
+				vrtAssert(len(ab.seen) == seenBefore+1, "fired-job-delivers-once")
+				u, ok := ab.seen[len(ab.seen)-1].(*vhUserMsg)
+				vrtAssert(ok && u.N == msg.N, "fired-job-carries-the-original-message")
+				vrtReach("rearmed-after-firing")
+			}
+		}
+	}
 	// termination / restart of the owner clears its jobs
 	if vrtChoose(2) == 0 {
 		w.root.Kill(a.ref, false, "x")
